@@ -209,6 +209,11 @@ structure Tables where
   /-- `update_pec_rates` rebinds its loop variable (`cls = cls.lower()`) and then fetches the data of a transition by
       indexing the argument again, `rates[cls][element][charge][transition]` — i.e. from the *lower-case* class entry -/
   pecReindexes : Bool
+  /-- `utility.encode_transition`: the calls applied, in order, to the upper / lower level (`["str", "lower"]` is what
+      `encodeTransition` transcribes) and the format string that joins them (`"{} -> {}"`) -/
+  encodeUpper : List String
+  encodeLower : List String
+  encodeFormat : String
 
 /-- the family an add/update/get function belongs to *by its name* (the specification of "matching") -/
 def AddFn.own : AddFn → UpdFn
@@ -689,6 +694,11 @@ def Tables.disjointOk (T : Tables) : Bool :=
 /-- `all_paths_under_root`: every front-end passes `repository_path` on -/
 def Tables.rootPassed (T : Tables) : Bool :=
   (allInstall.all fun i => (T.installCalls i).all fun c => c.2) && T.frontCalls.all fun c => c.2.2
+
+/-- the source applies to a transition exactly what `encodeTransition` transcribes: `str()` then `.lower()` on each level
+— nothing else (no `strip`, no `replace`) — joined by `' -> '` -/
+def Tables.encodeOk (T : Tables) : Bool :=
+  T.encodeUpper == ["str", "lower"] && T.encodeLower == ["str", "lower"] && T.encodeFormat == "{} -> {}"
 
 def Tables.wellFormed (T : Tables) : Bool :=
   T.addMatches && T.getMatches && T.shapesOk && T.disjointOk && T.rootPassed
